@@ -14,6 +14,7 @@ LEAN = os.path.join(ROOT, "lean", "ActsModel")
 HARNESS = os.path.join(ROOT, "harness")
 TARGET = os.path.join(CACHE, "target")
 HARNESS_BIN = os.path.join(TARGET, "debug", "acts-verif")
+os.environ["CARGO_TARGET_DIR"] = TARGET      # the harness is built where HARNESS_BIN is looked for, wherever this tree is checked out
 DRIVER_BIN = os.path.join(LEAN, ".lake", "build", "bin", "driver")
 REPO = os.environ.get("VERIF_REPO", "/repo")
 ALLOWED_AXIOMS = {"propext", "Classical.choice", "Quot.sound"}
@@ -259,6 +260,10 @@ class Ctx:
         if not items:
             return []
         if not os.path.exists(HARNESS_BIN) or not self.build_info.get("cargo", {}).get("ok", True):
+            # nothing can be run on the engine: the check must not pass on observations it does not have
+            if not getattr(self, "_harness_missing_reported", False):
+                self._harness_missing_reported = True
+                self.proof_breaks.append({"stream": "harness", "detail": f"the harness binary {HARNESS_BIN} is not available: nothing was run on the engine"})
             return [{"id": it.get("id"), "harness_unavailable": True, "steps": []} for it in items]
         n = shards or min(16, max(1, len(items) // 8))
         chunks = [items[i::n] for i in range(n)]
